@@ -45,6 +45,16 @@ CHECKS.update({
  'C12': dict(level='fault_enumeration', technique='exhaustive finite-domain enumeration on the real journal Writer/Reader: all record-length tuples x flush patterns, every truncation offset and every single-byte alteration',
    text='Round trip of every tuple (<=3, thorough <=4) of 15 block-boundary-hitting record lengths under every flush pattern, strict and tolerant; for selected streams every truncation offset and every one-byte alteration (3 patterns) at every offset (<=2 blocks) or around every chunk/block boundary (longer); the reader must never panic, invent or reorder records, tolerant mode may lose only records touching the damaged block, strict mode must stop with an error (except at an exact record boundary).',
    note='Known finding: strict mode returns clean EOF for a cut inside a first-chunk header.', design='4/C12'),
+
+ 'C13': dict(level='model_checking', technique='exhaustive finite-domain enumeration on the real table Writer/Reader: every subset of a key universe x option grid, all movement sequences to a depth on every range against a cursor model, every single-byte alteration of the small tables',
+   text='Every subset (1024) of a 10-key prefix-sharing universe is written and read back per grid point (block size, restart interval, compression, bloom, filter base, cache/pool, raw and internal keys): Find/FindKey/Get/OffsetOf for 25 probes, and for 49 ranges every movement sequence of the stated depth over First/Last/Next/Prev/Seek against a sorted-list cursor; then every byte before the footer of the smallest tables is altered (3 patterns) and the battery must return only original pairs or corruption errors, never panic.',
+   note='Finite universe; depth-bounded movement sequences (2 quick / 3 thorough); footer not altered.', design='4/C13'),
+ 'C15': dict(level='model_checking', technique='exhaustive evaluation of the order and shortening laws over a finite universe of internal keys for five comparers, plus index routing through one-entry-per-block tables',
+   text='All 320 internal keys (user keys over {0x00,a,0xff} up to length 3, seq {0,1,2,2^56-1}, both kinds) x 5 comparers: antisymmetry, identity, user-key-major/newest-first, probe placement on all pairs; transitivity on all triples; a<=Separator(a,b)<b and Successor(b)>=b on all ordered pairs for internal and user comparers; every stored key found in every table of <=4 one-entry blocks over a 24-key sub-universe.',
+   note='Internal comparer and key constructor reached through an overlay-added export; finite universe.', design='4/C15'),
+ 'C16': dict(level='model_checking', technique='exhaustive enumeration: bloom filters for bits 1..64 over all subsets of a key universe, filter blocks over all table subsets x filter bases, and BFS over DB programs under 7 filter settings against the sorted-map model',
+   text='No added key is ever reported absent (all 4096 subsets of a 12-key universe x 64 bits-per-key; generated large sets in thorough); tables with many/empty filter partitions find every stored key; every DB operation sequence to the depth returns the model answers with no filter, bloom 1/10/64, and with tables written under bloom10 and reopened with no filter / another policy with and without AltFilters.',
+   note='Key sets: all subsets of a finite universe plus a finite generated family.', design='4/C16'),
 })
 NA = {}
 
